@@ -5,6 +5,7 @@ import ExecModel.Props.C16
 import ExecModel.Props.C15
 import ExecModel.Props.C17
 import ExecModel.Props.C17Nth
+import ExecModel.Props.C11Scan
 import ExecModel.Lts.SysExplore
 import ExecModel.Args
 import ExecModel.Res
@@ -206,6 +207,12 @@ def wireOps (op : String) (j : Json) : Except String (Option Json) := do
           | .error e => Json.mkObj [("error", e)]
           | .ack => Json.mkObj [("ack", true)])] :: go (i + 1) rest
     pure (some (Json.arr (go 0 prs).toArray))
+  | "scan_pass" =>
+    -- one pass of the resolver over its wait list (`C11Scan.scanPass`): positions forwarded (queue order) and positions kept
+    let rd := (← j.getObjValAs? (Array Nat) "ready").toList
+    let idx := List.range rd.length
+    let out := C11Scan.scanPass (fun i => rd.getD i 0 != 0) idx
+    pure (some (Json.mkObj [("fwd", toJson out.1.toArray), ("rest", toJson out.2.toArray)]))
   | "wire_pserve" =>
     let reqs ← (← j.getObjValAs? (Array Json) "reqs").toList.mapM parseReq
     let n ← getNat j "n"
